@@ -35,6 +35,7 @@ type Script struct {
 	Calls             []string // called function names (dotted), e.g. "string.gsub", "os.execute"
 	CallSites         []CallSite
 	curGuard          string
+	sawReturn         bool // a return statement was seen earlier in source order: later statements are not unconditional
 }
 
 // CallSite is a function call with the condition of the innermost enclosing if.
@@ -149,7 +150,9 @@ func (s *Script) walkExpr(e ast.Expr) {
 			s.walkExpr(f.Value)
 		}
 	case *ast.FunctionExpr:
+		saved := s.sawReturn
 		s.walk(x.Stmts, false, "", false)
+		s.sawReturn = saved
 	}
 }
 
@@ -188,7 +191,7 @@ func (s *Script) walk(stmts []ast.Stmt, top bool, guard string, inLoop bool) {
 					s.DynamicKeyAssigns = append(s.DynamicKeyAssigns, x.Line())
 					continue
 				}
-				a := Assign{Table: tbl, Key: key.Value, Line: x.Line(), TopLevel: top, Guard: guard, InLoop: inLoop}
+				a := Assign{Table: tbl, Key: key.Value, Line: x.Line(), TopLevel: top && !s.sawReturn, Guard: guard, InLoop: inLoop}
 				switch rv := r.(type) {
 				case *ast.NilExpr:
 					a.Nil = true
@@ -232,12 +235,15 @@ func (s *Script) walk(stmts []ast.Stmt, top bool, guard string, inLoop bool) {
 			s.walk(x.Stmts, top, guard, inLoop)
 		case *ast.FuncDefStmt:
 			if x.Func != nil {
+				saved := s.sawReturn // a return inside a function definition does not leave the chunk
 				s.walk(x.Func.Stmts, false, "", false)
+				s.sawReturn = saved
 			}
 		case *ast.ReturnStmt:
 			for _, e := range x.Exprs {
 				s.walkExpr(e)
 			}
+			s.sawReturn = true
 		}
 	}
 }
